@@ -32,7 +32,7 @@ Definition verdict (tag : bytes) (model : bytes) (inst decisive known : bool) (f
 Definition tcp_fclaim (s o : tcp_sig) : option (bytes * bool) :=
   match find (fun f => single_field_off f s o) all_tcp_fields with
   | Some f => Some (if field_differs_comparably f s o then show_dist tcp_score (Some (field_penalty f)) else bs "-",
-                    known_tcp s o || win_mss_inexact s o)
+                    known_tcp s o)
   | None => None end.
 Definition http_fclaim (s o : http_sig) : option (bytes * bool) :=
   if expsw_off s o then Some (show_dist http_score (Some pen_expsw), optional_name_reused s || expsw_reversed s o) else None.
